@@ -250,6 +250,7 @@ def run_dimwise(case, res, modified=False):
     obs = ObsExact(res, cfg, err, exact, groups, "modified" if modified else "dimwise")
     obs.f, obs.P = f, probe_points(cfg, rng)
     c = dimwise.build(cfg, f, obs, modified_basis=modified)
+    dimwise.maybe_prior_run(rng, c, cfg, err, res)
     dimwise.run(c, cfg, err)
     cfg2 = dict(cfg, hmin=min_width_dimwise(c))
     # grid points of the combined grid as extra interpolation points
